@@ -372,3 +372,15 @@ package goja
 //@   props C03 C15
 //@   trusted
 //@   assigns nothing
+
+// The compiler reports source errors by panicking with *CompilerSyntaxError; compileAST turns exactly
+// those into an error value and lets everything else (a compiler bug) continue as a panic (C01).
+//@ func compileAST
+//@   props C01
+//@   ensures err != nil ==> p == nil [no-program-with-an-error]
+//@   ensures_abrupt !specIsCompilerSyntaxError(panicValue) [syntax-errors-are-returned-not-panicked]
+// Assumed: constructing a compiler allocates and initialises it, nothing else.
+//@ func newCompiler
+//@   props C01
+//@   trusted
+//@   assigns nothing
